@@ -1255,6 +1255,9 @@ class RFBClient(Protocol):  # type: ignore[misc]
                 block = bytes(self._packet[: self._expected_len])
                 del self._packet[: self._expected_len]
                 # ~ log.msg(f"handle {block!r} with {self._expected_handler.__name__!r}")
+                # a handler which does not expect() anything more (it closed the
+                # connection) must not be called again with the following bytes
+                self._expected_len = sys.maxsize
                 self._expected_handler(
                     block, *self._expected_args, **self._expected_kwargs
                 )
